@@ -23,8 +23,11 @@ type walkInfo struct {
 	slotExit map[string]lin // exit position of every pointer slot ("k.j")
 	touched  []string // positions of every pointer expression (pointer, pointer.next, …) the code after the loop mentions
 	valuePos []string // positions of the pointers whose value field the loop's exit paths access
+	succ     map[string][]string // successor cut → position of each value the exit paths hand over ("" = not a walked pointer)
 	bound    string
 	describe string
+	cslot    int         // the counter slot
+	offsets  map[int]lin // pointer slot → d with pos(slot) = counter + d at the loop head (filled even when the loop has no counter bound)
 }
 
 func ruleR33(c *Ctx) *RuleResult {
@@ -84,6 +87,23 @@ func ruleR33(c *Ctx) *RuleResult {
 		}
 		// (a) agreement between the walks of one function towards the same bound
 		for i := 1; single && i < len(walks); i++ {
+			// walks that hand their pointers to the same continuation are compared role by role (argument by argument)
+			shared := false
+			for k, p0 := range walks[0].succ {
+				p1, ok := walks[i].succ[k]
+				if !ok {
+					continue
+				}
+				shared = true
+				for j := range p0 {
+					if j < len(p1) && p0[j] != "" && p1[j] != "" && p0[j] != p1[j] {
+						bad = append(bad, fmt.Sprintf("the walks of this function hand over pointers at different positions (%s vs %s) in the same role: %s — versus %s", p0[j], p1[j], walks[0].describe, walks[i].describe))
+					}
+				}
+			}
+			if shared {
+				continue
+			}
 			if strings.Join(walks[i].exitPos, ",") != strings.Join(walks[0].exitPos, ",") {
 				bad = append(bad, fmt.Sprintf("the walks of this function land on different positions: %s — versus %s", walks[0].describe, walks[i].describe))
 			}
@@ -385,7 +405,7 @@ func analyseWalk(gc *GCNF, k int, foreign map[string]lin) (walkInfo, []string, b
 		}
 	}
 	if bound == nil {
-		return walkInfo{}, bad, len(bad) > 0
+		return walkInfo{cut: k, cslot: cslot, offsets: known}, bad, len(bad) > 0
 	}
 	// pointers used after the loop
 	slotExit := map[string]lin{}
@@ -461,10 +481,191 @@ func analyseWalk(gc *GCNF, k int, foreign map[string]lin) (walkInfo, []string, b
 			a.any(visit)
 		}
 	}
+	succ := map[string][]string{}
+	for _, e := range exits {
+		if e.Exit.Op != "goto" {
+			continue
+		}
+		var ps []string
+		for _, a := range e.Exit.Args {
+			if v, ok := posAfter(a); ok {
+				ps = append(ps, v.String())
+			} else {
+				ps = append(ps, "")
+			}
+		}
+		if old, ok := succ[e.Exit.Leaf]; ok {
+			for i := range old {
+				if i < len(ps) && old[i] != ps[i] {
+					old[i] = ""
+				}
+			}
+		} else {
+			succ[e.Exit.Leaf] = ps
+		}
+	}
 	sort.Strings(exitPos)
 	dir := "up"
 	if step < 0 {
 		dir = "down"
 	}
-	return walkInfo{cut: k, exitPos: exitPos, touched: touched, valuePos: valuePos, slotExit: slotExit, bound: bound.String(), describe: fmt.Sprintf("loop %d counts %s to %s: %s", k, dir, bound.String(), strings.Join(parts, ", "))}, bad, true
+	return walkInfo{cut: k, exitPos: exitPos, touched: touched, valuePos: valuePos, succ: succ, slotExit: slotExit, cslot: cslot, offsets: known, bound: bound.String(), describe: fmt.Sprintf("loop %d counts %s to %s: %s", k, dir, bound.String(), strings.Join(parts, ", "))}, bad, true
+}
+
+// ---- R39 ENDS: a linked list that unlinks an element keeps first/last on the chain's real ends ----
+
+func ruleR39(c *Ctx) *RuleResult {
+	p := c.p
+	r := &RuleResult{Rule: "R39", Title: "ENDS: a path that removes one element either moves first/last or knows the removed element is not that end", Floor: 2}
+	clause := "on every path of %s that decrements the size (one element is unlinked), for each of first and last: the field is stored, or the path knows (by a comparison with the field) that the removed element is not that end — otherwise the field keeps pointing at an element that is no longer in the list and the next Add/Prepend links behind it"
+	for _, tk := range []string{"lists/singlylinkedlist.List", "lists/doublylinkedlist.List"} {
+		ct := p.T.ContainerByKey(tk)
+		if ct == nil {
+			continue
+		}
+		ms := methodsOf(p, ct)
+		for _, name := range sortedNames(ms) {
+			fn := ms[name]
+			gc := c.GC(fn)
+			if gc.Undecided != "" {
+				continue
+			}
+			var bad []string
+			n := 0
+			for _, g0 := range gc.GCs {
+				dec := false
+				for _, ef := range g0.Effects {
+					if storeToField(ef, "size") && ef.Args[0].Args[0].String() == "p:0" && ef.Args[1].Op == "-" && len(ef.Args[1].Args) == 2 && ef.Args[1].Args[1].String() == "#:1" {
+						dec = true
+					}
+				}
+				if !dec {
+					continue
+				}
+				n++
+				// a path that starts at a loop header also knows what every path into that loop knows (parameters and the
+				// size are not written by the search loops)
+				g := &GC{From: g0.From, Guards: append(append([]*Term(nil), g0.Guards...), entryKnowledge(gc, g0.From, 0)...), Effects: g0.Effects, Exit: g0.Exit}
+				for _, f := range []string{"first", "last"} {
+					stored, known := false, false
+					for _, ef := range g.Effects {
+						if storeToField(ef, f) && ef.Args[0].Args[0].String() == "p:0" {
+							stored = true
+						}
+					}
+					for _, a := range g.Guards {
+						if (a.Op == "!=" || a.Op == "==") && len(a.Args) == 2 {
+							for _, x := range a.Args {
+								if x.Op == "load" && len(x.Args) == 1 && x.Args[0].Op == "fa" && x.Args[0].Leaf == f && x.Args[0].Args[0].String() == "p:0" {
+									known = true
+								}
+							}
+						}
+					}
+					// removal by index knows the end from the index as well: index != 0 / index != size-1
+					for _, a := range g.Guards {
+						s := noEpoch(a)
+						if f == "first" && (strings.Contains(s, "(!= #:0 p:1)") || strings.Contains(s, "(< #:0 p:1)")) {
+							known = true
+						}
+						if f == "last" && (strings.Contains(s, "(!= (- (load (fa:size p:0)) #:1) p:1)") || strings.Contains(s, "(!= p:1 (- (load (fa:size p:0)) #:1))")) {
+							known = true
+						}
+					}
+					// the element known to be the *other* end touches this end only when the list becomes empty (R27's business):
+					// removing the head never moves last otherwise, removing the tail never moves first
+					other := "first"
+					if f == "first" {
+						other = "last"
+					}
+					for _, a := range g.Guards {
+						if a.Op != "==" || len(a.Args) != 2 {
+							continue
+						}
+						x, y := a.Args[0], a.Args[1]
+						isOtherEnd := func(t *Term) bool {
+							return t.Op == "load" && len(t.Args) == 1 && t.Args[0].Op == "fa" && t.Args[0].Leaf == other && t.Args[0].Args[0].String() == "p:0"
+						}
+						if isOtherEnd(x) || isOtherEnd(y) {
+							known = true
+						}
+						if x.String() == "#:nil" {
+							// no predecessor (head) / no successor (tail)
+							if f == "last" && (y.Op == "φ" || (y.Op == "load" && y.Args[0].Op == "fa" && y.Args[0].Leaf == "prev")) {
+								known = true
+							}
+							if f == "first" && y.Op == "load" && y.Args[0].Op == "fa" && y.Args[0].Leaf == "next" {
+								known = true
+							}
+						}
+						if f == "last" && x.String() == "#:0" && y.String() == "p:1" {
+							known = true
+						}
+					}
+					// an element with a predecessor is not the first one; one with a successor is not the last one
+					for _, a := range g.Guards {
+						if a.Op != "!=" || len(a.Args) != 2 || a.Args[0].String() != "#:nil" {
+							continue
+						}
+						y := a.Args[1]
+						if f == "first" && (y.Op == "φ" || (y.Op == "load" && y.Args[0].Op == "fa" && y.Args[0].Leaf == "prev")) {
+							known = true
+						}
+						if f == "last" && y.Op == "load" && y.Args[0].Op == "fa" && y.Args[0].Leaf == "next" {
+							known = true
+						}
+					}
+					if !stored && !known {
+						bad = append(bad, fmt.Sprintf("a removing path neither stores %s nor knows that the removed element is not the %s one: %s", f, f, trunc(guardsString(g), 240)))
+					}
+				}
+			}
+			if n == 0 {
+				continue
+			}
+			key := p.FuncKey(fn)
+			if len(bad) > 0 {
+				r.bad(key, fmt.Sprintf(clause, key), p.FuncPos(fn), strings.Join(dedup(bad), "\n"))
+			} else {
+				r.ok(key, fmt.Sprintf(clause, key), p.FuncPos(fn), fmt.Sprintf("%d removing path(s): both ends stored or known untouched", n))
+			}
+		}
+	}
+	return r
+}
+
+
+// entryKnowledge: guard atoms over parameters and the size field that hold on every path entering cut k from outside
+// (intersection over the entering paths, transitively through earlier cuts).
+func entryKnowledge(gc *GCNF, k int, depth int) []*Term {
+	if k == 0 || depth > 3 {
+		return nil
+	}
+	var common map[string]*Term
+	for _, x := range gc.GCs {
+		if x.From == k || x.Exit.Op != "goto" || x.Exit.Leaf != itoa(k) {
+			continue
+		}
+		have := map[string]*Term{}
+		for _, a := range append(append([]*Term(nil), x.Guards...), entryKnowledge(gc, x.From, depth+1)...) {
+			if a.any(func(t *Term) bool { return t.Op == "φ" || t.Op == "φout" }) {
+				continue // loop-local knowledge does not survive
+			}
+			have[a.String()] = a
+		}
+		if common == nil {
+			common = have
+			continue
+		}
+		for s := range common {
+			if _, ok := have[s]; !ok {
+				delete(common, s)
+			}
+		}
+	}
+	var out []*Term
+	for _, a := range common {
+		out = append(out, a)
+	}
+	return out
 }
